@@ -67,4 +67,12 @@ Proof.
   intro I. cbn [step]. destruct (idict_get c (s_chans s)) as [ch|]; [|exact I].
   destruct (is_member (s_me s) ch); [|exact I]. unfold msgs_who. apply who_loop. exact I.
 Qed.
+(* ---- ISUPPORT (005): nothing the relation sees changes ---- *)
+Lemma step_isupport s b n : Inv s b ->
+  let '(s', ms) := step nick0 true uh s (AIsupport n) in Inv s' (fa b ms).
+Proof.
+  intro I. cbn [step]. rewrite (fa_one nick0 prefix0) by reflexivity.
+  rewrite (feed_numeric str_005 _ b (fun m b => b) (Inv_valid_nick s b I)); try reflexivity; try exact addMsg_005;
+    [exact I|intros _; eexists; rewrite (inv_nick s b I); reflexivity].
+Qed.
 End Steps4.
